@@ -29,7 +29,7 @@
      tables store values of pure functions, so this changes nothing observable;
      it only keeps [vm_compute] fast.  Cooked fields are by construction
      [parse_version] / [resolve_constraint] of the raw strings (see [cook_*]).
-   * Go map iteration.  Three loops range over a map:
+   * Go map iteration.  Two loops range over a map:
        (1) newPkgResolver ranges over pkgNameMap to append providers.  The order
            of the providers of one name that have DIFFERENT package names follows
            that iteration.  The model uses first-occurrence order of names.  The
@@ -40,13 +40,12 @@
        (2) getPackageDependencies: constraints = keys(options) — affects only
            WHICH error is returned, and errors are observed as a boolean.
            "lowest" is chosen with an explicit tie-break, no order dependence.
-       (3) GetPackageWithDependencies: `for dep, depPkg := range added`, a map
-           that is also written during the loop.  This one is observable
-           (finding C08-F1): it is the explicit schedule parameter [sched] of
-           [iif_loop]: the sequence of keys visited.  A Go execution corresponds
-           to a schedule without repetition that contains every key present when
-           the loop starts and possibly keys added during the loop
-           ([legal_sched_b]).  [resolve] takes one schedule per requested package.
+     GetPackageWithDependencies' install_if loop used to be a third one
+     (`for dep, depPkg := range added`, a map written during the range: findings
+     C08-F1, C08-F3, C01-F1).  Since fix c03e0c0 it walks the `dependencies`
+     slice by index, the entries it appends included ([iif_loop]); the `added`
+     map is only looked up.  No schedule parameter is left: [resolve] is a
+     function of the universe, the world and the initial disqualification set.
    * comparePackages: every caller passes compare = nil, so its first two stages
      (repository of `compare`, origin of `compare`) are dead and omitted; the
      remaining seven are modelled in order.  sortPackages is reachable only
@@ -592,35 +591,39 @@ Definition iif_matches (R : resolver) (added : list (string * pid)) (sub : cstr)
   | None => false
   end.
 
-(* body of the range loop for one visited key *)
-Definition iif_visit (R : resolver) (key : string) (st : list pid * list (string * pid)) : list pid * list (string * pid) :=
-  let '(deps, added) := st in
-  match alookup key added with
-  | None => st
-  | Some j =>
-      let lst := match alookup key (r_iif R) with
-                 | Some l => Some l
-                 | None => alookup (key ++ "=" ++ k_version (getp R j)) (r_iif R)
-                 end in
-      match lst with
-      | None => st
-      | Some l =>
-          fold_left (fun st q =>
-            let '(deps, added) := st in
-            let kq := getp R q in
-            if forallb (iif_matches R added) (k_iifs kq) && negb (ahas (k_name kq) added)
-            then (deps ++ [q], added ++ [(k_name kq, q)]) else st) l st
-      end
+(* body of the loop for one visited entry dependencies[i] = j, with the `added`
+   map as it is then: the packages it appends (in the order of the install_if
+   list of the key) and the `added` map afterwards *)
+Definition iif_visit (R : resolver) (j : pid) (added : list (string * pid)) : list pid * list (string * pid) :=
+  let kj := getp R j in
+  let lst := match alookup (k_name kj) (r_iif R) with
+             | Some l => Some l
+             | None => alookup (k_name kj ++ "=" ++ k_version kj) (r_iif R)
+             end in
+  match lst with
+  | None => ([], added)
+  | Some l =>
+      fold_left (fun st q =>
+        let '(news, added) := st in
+        let kq := getp R q in
+        if forallb (iif_matches R added) (k_iifs kq) && negb (ahas (k_name kq) added)
+        then (news ++ [q], added ++ [(k_name kq, q)]) else st) l ([], added)
   end.
 
-Definition iif_loop (R : resolver) (sched : list string) (deps : list pid) (added : list (string * pid)) : list pid :=
-  fst (fold_left (fun st key => iif_visit R key st) sched (deps, added)).
-
-(* a schedule that some Go execution can follow: no repetition, contains every
-   initial key; (keys that appear during the loop may or may not be visited) *)
-Definition legal_sched_b (initial : list string) (sched : list string) : bool :=
-  forallb (fun k => mem_str k sched) initial &&
-  (fix nd (l : list string) := match l with [] => true | x :: t => negb (mem_str x t) && nd t end) sched.
+(* `for i := 0; i < len(dependencies); i++`: the list is read by index and grows
+   during the loop; the appended entries are visited too.  Every appended
+   package has a name that is not yet a key of `added`, so the loop ends after
+   at most (distinct package names + 1) visits; [fuel] counts visits. *)
+Fixpoint iif_loop (fuel : nat) (R : resolver) (i : nat) (deps : list pid) (added : list (string * pid)) : res (list pid) :=
+  match nth_error deps i with
+  | None => Ok deps
+  | Some j =>
+      match fuel with
+      | O => OutOfFuel
+      | S f => let '(news, added') := iif_visit R j added in
+               iif_loop f R (S i) (deps ++ news) added'
+      end
+  end.
 
 Definition initial_origins (R : resolver) (existing : list (string * pid)) : list string :=
   fold_left (fun os e =>
@@ -638,11 +641,12 @@ Definition get_pkg_core (R : resolver) (w : cstr) (dq : list pid) (sel : list (s
   let '(l, added) := dedup_by_name R deps in
   Ok (st_dq st', st_selected st', i, l, added).
 
-Definition get_pkg (R : resolver) (w : cstr) (sched : list string) (dq : list pid) (sel : list (string * pid))
+Definition get_pkg (R : resolver) (w : cstr) (dq : list pid) (sel : list (string * pid))
     (existing : list (string * pid)) : res (list pid * list (string * pid) * pid * list pid) :=
   do r <- get_pkg_core R w dq sel existing;
   let '(dq', sel', i, l, added) := r in
-  Ok (dq', sel', i, iif_loop R sched l added).
+  do deps <- iif_loop (fuel_bound R) R 0 l added;
+  Ok (dq', sel', i, deps).
 
 (* ---- GetPackagesWithDependencies ---------------------------------------------------------- *)
 (* first loop: fix the requested packages, most constrained first *)
@@ -671,28 +675,28 @@ Definition track (R : resolver) (j : pid) (st : list pid * list string * list (s
   (to_install, tracked, if ahas n depmap then depmap else aset n j depmap).
 
 (* second loop: one get_pkg per requested package, in the order given *)
-Fixpoint phase2 (R : resolver) (ws : list cstr) (scheds : list (list string)) (dq : list pid)
+Fixpoint phase2 (R : resolver) (ws : list cstr) (dq : list pid)
     (sel : list (string * pid)) (acc : list pid * list string * list (string * pid)) : res (list pid) :=
   match ws with
   | [] => Ok (fst (fst acc))
   | w :: ws' =>
-      do r <- get_pkg R w (hd [] scheds) dq sel (snd acc);
+      do r <- get_pkg R w dq sel (snd acc);
       let '(dq', sel', i, deps) := r in
-      phase2 R ws' (tl scheds) dq' sel' (track R i (fold_left (fun a j => track R j a) deps acc))
+      phase2 R ws' dq' sel' (track R i (fold_left (fun a j => track R j a) deps acc))
   end.
 
 (* [dq0]: what globalDisqualifyCache.Get returned (a fresh copy), restricted
    to this resolver's packages *)
-Definition resolve_with (R : resolver) (world : list string) (dq0 : list pid) (scheds : list (list string)) : res (list pid) :=
+Definition resolve_with (R : resolver) (world : list string) (dq0 : list pid) : res (list pid) :=
   let cw := List.map cook_dep world in
   let ws := List.map d_pos cw in
   do dq1 <- constrain R cw dq0;
   do r <- phase1 (List.length ws) R ws dq1 [];
   let '(dq2, depmap) := r in
-  phase2 R ws scheds dq2 [] ([], [], depmap).
+  phase2 R ws dq2 [] ([], [], depmap).
 
-Definition resolve (U : universe) (world : list string) (dq0 : list pid) (scheds : list (list string)) : res (list pid) :=
-  resolve_with (new_resolver U) world dq0 scheds.
+Definition resolve (U : universe) (world : list string) (dq0 : list pid) : res (list pid) :=
+  resolve_with (new_resolver U) world dq0.
 
 (* the observable compared with Go: ordered (name, version) list, or an error *)
 Definition observe (R : resolver) (r : res (list pid)) : res (list (string * string)) :=
